@@ -344,6 +344,12 @@ where
         // Sometimes an increase will go way too far, especially with large
         // powers, and then take a long time to walk back.  We know an upper
         // bound based on bit size, so saturate on that.
+        #[cfg(num_bigint_verif)]
+        crate::verif_probe::hit(crate::verif_probe::Probe::ROOT_FIX_CLIMB);
+        #[cfg(num_bigint_verif)]
+        if xn.bits() > max_bits {
+            crate::verif_probe::hit(crate::verif_probe::Probe::ROOT_FIX_SATURATE);
+        }
         x = if xn.bits() > max_bits {
             BigUint::one() << max_bits
         } else {
@@ -354,6 +360,8 @@ where
 
     // Now keep repeating while the estimate is decreasing.
     while x > xn {
+    #[cfg(num_bigint_verif)]
+    crate::verif_probe::hit(crate::verif_probe::Probe::ROOT_FIX_DESCEND);
         x = xn;
         xn = f(&x);
     }
@@ -390,6 +398,8 @@ impl Roots for BigUint {
 
         // If we fit in `u64`, compute the root that way.
         if let Some(x) = self.to_u64() {
+            #[cfg(num_bigint_verif)]
+            crate::verif_probe::hit(crate::verif_probe::Probe::ROOT_U64_FAST);
             return x.nth_root(n).into();
         }
 
@@ -401,17 +411,23 @@ impl Roots for BigUint {
                 use num_traits::FromPrimitive;
 
                 // We fit in `f64` (lossy), so get a better initial guess from that.
+                #[cfg(num_bigint_verif)]
+                crate::verif_probe::hit(crate::verif_probe::Probe::ROOT_F64_GUESS);
                 BigUint::from_f64((f.ln() / f64::from(n)).exp()).unwrap()
             }
             _ => {
                 // Try to guess by scaling down such that it does fit in `f64`.
                 // With some (x * 2ⁿᵏ), its nth root ≈ (ⁿ√x * 2ᵏ)
+                #[cfg(num_bigint_verif)]
+                crate::verif_probe::hit(crate::verif_probe::Probe::ROOT_SCALED_GUESS);
                 let extra_bits = bits - (f64::MAX_EXP as u64 - 1);
                 let root_scale = Integer::div_ceil(&extra_bits, &n64);
                 let scale = root_scale * n64;
                 if scale < bits && bits - scale > n64 {
                     (self >> scale).nth_root(n) << root_scale
                 } else {
+                    #[cfg(num_bigint_verif)]
+                    crate::verif_probe::hit(crate::verif_probe::Probe::ROOT_POW2_GUESS);
                     BigUint::one() << max_bits
                 }
             }
@@ -437,6 +453,8 @@ impl Roots for BigUint {
 
         // If we fit in `u64`, compute the root that way.
         if let Some(x) = self.to_u64() {
+            #[cfg(num_bigint_verif)]
+            crate::verif_probe::hit(crate::verif_probe::Probe::ROOT_U64_FAST);
             return x.sqrt().into();
         }
 
@@ -449,11 +467,15 @@ impl Roots for BigUint {
                 use num_traits::FromPrimitive;
 
                 // We fit in `f64` (lossy), so get a better initial guess from that.
+                #[cfg(num_bigint_verif)]
+                crate::verif_probe::hit(crate::verif_probe::Probe::ROOT_F64_GUESS);
                 BigUint::from_f64(f.sqrt()).unwrap()
             }
             _ => {
                 // Try to guess by scaling down such that it does fit in `f64`.
                 // With some (x * 2²ᵏ), its sqrt ≈ (√x * 2ᵏ)
+                #[cfg(num_bigint_verif)]
+                crate::verif_probe::hit(crate::verif_probe::Probe::ROOT_SCALED_GUESS);
                 let extra_bits = bits - (f64::MAX_EXP as u64 - 1);
                 let root_scale = (extra_bits + 1) / 2;
                 let scale = root_scale * 2;
@@ -478,6 +500,8 @@ impl Roots for BigUint {
 
         // If we fit in `u64`, compute the root that way.
         if let Some(x) = self.to_u64() {
+            #[cfg(num_bigint_verif)]
+            crate::verif_probe::hit(crate::verif_probe::Probe::ROOT_U64_FAST);
             return x.cbrt().into();
         }
 
@@ -490,11 +514,15 @@ impl Roots for BigUint {
                 use num_traits::FromPrimitive;
 
                 // We fit in `f64` (lossy), so get a better initial guess from that.
+                #[cfg(num_bigint_verif)]
+                crate::verif_probe::hit(crate::verif_probe::Probe::ROOT_F64_GUESS);
                 BigUint::from_f64(f.cbrt()).unwrap()
             }
             _ => {
                 // Try to guess by scaling down such that it does fit in `f64`.
                 // With some (x * 2³ᵏ), its cbrt ≈ (∛x * 2ᵏ)
+                #[cfg(num_bigint_verif)]
+                crate::verif_probe::hit(crate::verif_probe::Probe::ROOT_SCALED_GUESS);
                 let extra_bits = bits - (f64::MAX_EXP as u64 - 1);
                 let root_scale = (extra_bits + 2) / 3;
                 let scale = root_scale * 3;
